@@ -55,8 +55,8 @@ func scenarios(tier string) []scenario {
 	ms := []m{
 		{"staking.delegate", []string{"1", "mid", "all", "all+1"}, []string{"signer", "caller"}},
 		{"staking.undelegate", []string{"1", "mid"}, []string{"signer"}},
-		{"distribution.withdrawDelegatorRewards", []string{"-"}, []string{"signer"}},
-		{"distribution.claimRewards", []string{"-"}, []string{"signer"}},
+		{"distribution.withdrawDelegatorRewards", []string{"-"}, []string{"signer", "caller"}},
+		{"distribution.claimRewards", []string{"-"}, []string{"signer", "caller"}},
 		{"distribution.setWithdrawAddress", []string{"-"}, []string{"signer"}},
 	}
 	pres := []string{"base", "wd-other", "no-rewards"}
@@ -76,11 +76,19 @@ func scenarios(tier string) []scenario {
 				}
 				for _, mm := range ms {
 					for _, named := range mm.nameds {
-						if named == "caller" && (topo == "direct" || v0 == 0 || (topo == "two" && v1 == 0)) {
+						if named == "caller" && topo == "direct" {
+							continue
+						}
+						if named == "caller" && mm.name == "staking.delegate" && (v0 == 0 || (topo == "two" && v1 == 0)) {
 							continue // a contract delegating its own funds needs funds
 						}
 						for _, a := range mm.amts {
-							for _, pre := range pres {
+							prs := pres
+							if named == "caller" && strings.HasPrefix(mm.name, "distribution.") {
+								// the calling contract is itself a delegator with pending rewards
+								prs = []string{"contract-rewards"}
+							}
+							for _, pre := range prs {
 								for _, d := range dirties {
 									if topo == "direct" && d != "none" {
 										continue
@@ -114,6 +122,18 @@ func (r *runner) applyPre(pre string) {
 		if _, err := w.RunMsg(ctx, distrtypes.NewMsgSetWithdrawAddress(S, w.Addrs[f.Wd])); err != nil {
 			panic(err)
 		}
+	case "contract-rewards":
+		for id := 0; id < 2; id++ {
+			c := sdk.AccAddress(world.ContractAddr(byte(0x10 + id)).Bytes())
+			if err := w.App.BankKeeper.SendCoins(ctx, S, c, sdk.NewCoins(sdk.NewCoin(world.Denom, e17(10)))); err != nil {
+				panic(err)
+			}
+			if _, err := w.RunMsg(ctx, stakingtypes.NewMsgDelegate(c, w.ValAddr[0], sdk.NewCoin(world.Denom, e17(10)))); err != nil {
+				panic(err)
+			}
+		}
+		w.VirtualNextBlock(6*time.Second, nil, nil)
+		w.VirtualNextBlock(6*time.Second, nil, nil)
 	case "no-rewards":
 		if _, err := w.RunMsg(ctx, distrtypes.NewMsgWithdrawDelegatorReward(S, w.ValAddr[0])); err != nil {
 			panic(err)
@@ -328,6 +348,9 @@ func Worker(shard, n int, tier string) *engine.Result {
 		rewards := "pending"
 		if sc.pre == "no-rewards" {
 			rewards = "none"
+		}
+		if sc.pre == "contract-rewards" {
+			rewards = "pending-on-caller"
 		}
 		sig := func(effect string) string {
 			// the journal-dirty set and the nesting depth are in the detail, not in the signature: they
